@@ -31,16 +31,16 @@ def plan(tier, seed):
     specs = []
     n4 = ('a', 'b', 'c', 'd')
     os4 = list(dict.fromkeys(orders(n4, 'quick', seed,
-                                    8 if tier == 'thorough' else 2)))
+                                    8 if tier == 'thorough' else 3)))
     for k, o in enumerate(os4):
         for auto in (False, True):
             specs.append(dict(kind='matrix', order=o, auto=auto, hashseed=k))
             specs.append(dict(kind='binders', order=o, auto=auto,
                               hashseed=k))
-    nr = 32 if tier == 'thorough' else 8
+    nr = 32 if tier == 'thorough' else 16
     for k in range(nr):
         specs.append(dict(kind='random', sub=k, n=2 + k % 4,
-                          count=2000 if tier == 'thorough' else 400,
+                          count=2500 if tier == 'thorough' else 1200,
                           auto=(k % 2 == 1), hashseed=k))
     n3 = ('a', 'b', 'c')
     for k, o in enumerate(orders(n3, 'thorough', seed, 6)):
@@ -53,7 +53,7 @@ def plan(tier, seed):
     else:
         for k, o in enumerate(os4):
             specs.append(dict(kind='roundtrip', names=n4, order=o,
-                              sample=1500, hashseed=k))
+                              sample=6000, hashseed=k))
     meta = dict(
         rule=RULE,
         require=['matrix_formulas', 'paren_forms', 'binder_formulas',
